@@ -55,6 +55,27 @@ Lemma reset_windows_all :
     = [true; true; true; true; true; true; true].
 Proof. vm_compute. reflexivity. Qed.
 
+(* ---- the order of Reset's two writers (Stages.reset_order) on the same 3-block node ---- *)
+Definition wordered (j k : nat) := apply_all wd (firstn k (reset_order (wreset fixes_all) j)).
+Definition has_marker (x : db N N) := match get x KStage with Some (VStage true _) => true | _ => false end.
+Definition has_state (x : db N N) := present x (KState (cur_prefix x)).
+
+(* both orders the unbuffered channel admits: every boundary resumes *)
+Lemma order_windows_code :
+  map (fun j => map (fun k => is_up (wboot fixes_all (wordered j k))) [1; 2; 3; 4; 5; 6; 7]%nat) [4; 5]%nat
+    = [[true; true; true; true; true; true; true]; [true; true; true; true; true; true; true]] /\
+  map (fun j => map (fun k => has_state (wordered j k)) [0; 1; 2; 3; 4; 5; 6; 7]%nat) [4; 5]%nat
+    = [[true; true; true; true; true; true; true; true]; [true; true; true; true; true; true; true; true]].
+Proof. vm_compute. split; reflexivity. Qed.
+
+(* without the edge (the direct SeekGC overtakes the marker batch): after the first write there is no marker,
+   start-up takes the database for an ordinary node at height 3 - and its contract storage is gone *)
+Lemma order_window_no_edge :
+  has_marker (wordered 0 1) = false /\ has_state (wordered 0 1) = false /\ has_state wd = true /\
+  get (wordered 0 1) (KState false) = None /\ get wd (KState false) = Some (VSt 3) /\
+  match wboot fixes_all (wordered 0 1) with Up n => (height n =? 3) && negb (has_state (disk n)) | _ => false end = true.
+Proof. vm_compute. repeat split. Qed.
+
 (* a light node that fetched headers 11..22, the state of 20 and blocks 15..20, not yet jumped *)
 Definition wj : db N N :=
   apply []
